@@ -175,6 +175,12 @@ def deg_scene(rng, cid):
         elif c < 0.97:
             ops.append("drawimage %d %d 1 1 %s %s" % (FB(rng.choice([0.0, -1.0, 0.5, 3990.0, float(W)])), FB(rng.choice([0.0, -0.25, 2.0, -3990.0])),
                                                       gen.hexpx(gen.premul_pixel(rng)), deg_opts(rng)))
+        elif c < 0.985:
+            # a block that does land on the surface, with every special value of alpha (the far-away rectangles below mostly
+            # transfer nothing)
+            sw = rng.choice([1, 2, 3, 5])
+            ops.append("surf %s %d 1 %s 0 0 %d 1 %d %d" % (rng.choice(["alpha %d" % FB(rng.choice(SPECIAL_F + [1.5, 1.002, 3e38])), "blend %d" % rng.randrange(24), "copy 0"]),
+                                                         sw, " ".join(gen.hexpx(gen.premul_pixel(rng)) for _ in range(sw)), sw, rng.choice([0, 0, -1]), 0))
         else:
             far = rng.choice([2 ** 29, -2 ** 29, 10 ** 6, 0, -3, 2 ** 31 - 1, -2 ** 31 + 1, 2 ** 30])
             ops.append("surf %s 2 1 %s %s %d %d %d %d %d %d" % (rng.choice(["copy 0", "blend 3", "alpha %d" % FB(rng.choice(SPECIAL_F))]),
